@@ -57,6 +57,17 @@ CHECKS = {
    note=TB + 'Known finding: a let nested in a class member that re-binds an earlier FIELD name of that class (translator does not track class fields as binders). Inline Python is a closed vocabulary; parameters of templates are covered under C06.',
    technique='Coq refinement proof with environment invariant (flat locals vs lexical scoping) + differential correspondence',
    ref='DESIGN.md §6 C05'),
+ 'C07': dict(
+   text='Coq theorems on a machine model of _run (explicit stack of suspended generators, memo, value being sent, log of body '
+        'starts; rule bodies abstract interaction trees): C07_memo_transparent (the machine ends with exactly the triple of '
+        'direct memo-free evaluation; memo entries are values of direct evaluation; a hit replays them), C07_at_most_once '
+        '(NoDup of the body-start log under the exact no-left-recursion rank hypothesis), C07_bound (<= rules x (len+1)). '
+        'Tied to /repo by driving the REAL _run of a generated module with scripted generator functions and comparing '
+        'result and body-start order with the extracted machine, and by counting evaluations per (rule, position) with '
+        'wrappers around the generated _try_<rule> functions on grammar families whose un-memoised evaluation is exponential.',
+   note=TB + 'identity (`is`) of replayed results and side effects of inline Python are observed on the implementation only.',
+   technique='Coq proof on a state-machine model of the trampoline + differential execution of the real _run against the extracted machine',
+   ref='DESIGN.md §6 C07'),
  'C08': dict(
    text='Coq theorem C08_three_outcomes: for every well-formed grammar, every parameterless rule or class used as entry '
         'point, every text, start offset and value of fullparse, the model of _run\'s tail and _finalize_parse_info returns the '
@@ -89,7 +100,17 @@ CHECKS = {
    note=TB + 'Python\'s re.search for a newline and str slicing are modelled; the claim that the failure index never lies '
         'beyond the furthest failure is carried by the refinement theorem of C01 (failure position), not by this check.',
    technique='Coq proof over a model regenerated from source + tie lemmas; differential sweep model vs runtime',
-   ref='DESIGN.md §6 C09'),
+   ref='DESIGN.md §6 C09'), 'C15': dict(
+   text='Coq theorems over trees whose nodes carry CPython identities (any assignment): C15_visit_is_dfs (the explicit-stack '
+        'loop of visit = recursive preorder with first-occurrence de-duplication of objects, through fields, lists, tuples, '
+        'dict values), C15_visit_once (NoDup, nothing already visited), C15_traverse_spec (the explicit-stack loop of traverse '
+        'emits exactly the bracketed recursive event sequence: one entering and one finished event per occurrence, containers '
+        'expanded at their first occurrence only, repeated equal leaves each reported). Correspondence: random trees with '
+        'controlled sharing and leaf identity, list(visit) by identity and list(traverse) as (parent, field, child, finished) '
+        'events against the extracted loops and the extracted recursive specifications; depth up to 10^5 on the implementation.',
+   note=TB + 'absence of RecursionError is an observation on the implementation (the Python stack is not modelled).',
+   technique='Coq proof (explicit-stack loop = recursive spec) + differential correspondence on random trees',
+   ref='DESIGN.md §6 C15'),
 }
 
 PENDING = 'check under construction in this session (model/spec exist as design spikes under notes/spike; not yet wired into a registered check)'
